@@ -106,6 +106,60 @@ def _check_width(n):
     return True, "ok"
 
 
+def _check_symbolic(n):
+    """circuits whose multi-qubit gates still carry a free parameter are simulated through the symbolic embedding and bound afterwards:
+    the state, exact <Z_q> and samples must agree with the numerically bound circuit and with the element-wise definition (qubit q = axis q)"""
+    import numpy as np
+    import sympy
+    from orquestra.quantum.circuits import Circuit, RX, RY, XX, ZZ, CPHASE, X, H
+    from orquestra.quantum.operators import PauliSum, PauliTerm
+    from orquestra.quantum.runners.symbolic_simulator import SymbolicSimulator
+    from orquestra.quantum.wavefunction import sample_from_wavefunction
+    th = sympy.Symbol("theta")
+    val = 0.7
+
+    def embed(M, qs):
+        k = len(qs)
+        bit = lambda i, q: (i >> (n - 1 - q)) & 1
+        E = np.zeros((2 ** n, 2 ** n), dtype=complex)
+        for r in range(2 ** n):
+            for c in range(2 ** n):
+                if all(bit(r, q) == bit(c, q) for q in range(n) if q not in qs):
+                    sr = sum(bit(r, q) << (k - 1 - t) for t, q in enumerate(qs))
+                    sc = sum(bit(c, q) << (k - 1 - t) for t, q in enumerate(qs))
+                    E[r, c] = M[sr, sc]
+        return E
+    gates = [lambda t: RY(t).controlled(1), lambda t: RX(t).controlled(1), XX, CPHASE, lambda t: RY(t).controlled(2)]
+    for mk in gates:
+        k = mk(0.1).num_qubits
+        if k > n:
+            continue
+        for qs in itertools.permutations(range(n), k):
+            prep = [X(qs[0])] + ([H(qs[1])] if k > 1 else [])
+            sym_c = Circuit(prep + [mk(th)(*qs)], n_qubits=n)
+            num_c = Circuit(prep + [mk(val)(*qs)], n_qubits=n)
+            a = np.array(SymbolicSimulator().get_wavefunction(sym_c).bind({th: val}).amplitudes, dtype=complex).ravel()
+            b = np.array(SymbolicSimulator().get_wavefunction(num_c).amplitudes, dtype=complex).ravel()
+            want = np.zeros(2 ** n, dtype=complex)
+            want[0] = 1
+            for op in num_c.operations:
+                want = embed(np.array(op.gate.matrix.tolist(), dtype=complex), op.qubit_indices) @ want
+            if not np.allclose(a, want, atol=1e-9) or not np.allclose(b, want, atol=1e-9):
+                return False, f"n={n}: {mk(th)} on qubits {qs}: state via the symbolic embedding (bound afterwards) / via the numeric embedding differs from the definition " \
+                              f"(|sym - def| = {abs(a - want).max():.3g}, |num - def| = {abs(b - want).max():.3g})"
+            wf = SymbolicSimulator().get_wavefunction(sym_c).bind({th: val})
+            for q in range(n):
+                ez = SymbolicSimulator().get_exact_expectation_values(sym_c.bind({th: val}), PauliSum([PauliTerm({q: "Z"}, 1.0)]))
+                wantz = sum(abs(want[i]) ** 2 * (1 - 2 * ((i >> (n - 1 - q)) & 1)) for i in range(2 ** n))
+                if abs(complex(np.sum(ez)) - wantz) > 1e-9:
+                    return False, f"n={n}: exact <Z_{q}> of {mk(th)} on {qs} is {np.sum(ez)}, definition gives {wantz}"
+            for s in sample_from_wavefunction(wf, 5, 3):
+                idx = sum(bit << (n - 1 - q) for q, bit in enumerate(s))
+                if abs(want[idx]) ** 2 < 1e-12:
+                    return False, f"n={n}: sampled outcome {s} of the symbolically simulated state has zero exact probability"
+    return True, "ok"
+
+
 def build(tier, seed):
     obs = []
     fb = vprop.enum_ob("x", [], lambda: range(1, 4), _check_width, "").run
@@ -126,4 +180,9 @@ def build(tier, seed):
     obs.append(vprop.enum_ob("C04.views.enum", F_OPS, lambda: range(1, 5 if tier == "quick" else 6), _check_width,
                              "bounded-exhaustive per width: amplitudes, outcome-prob keys, exact distribution, exact <Z_S> for every subset S, sampled tuples (both sampling regimes, "
                              "function and runner), count strings and measured <Z_S> all use 'position q = qubit q' on basis states and on a separable state with distinct marginals", timeout=1500))
+    obs.append(vprop.enum_ob("C04.symbolic_views.enum", F_OPS[:3] + ["orquestra.quantum.circuits._unitary_tools:_lift_matrix_sympy", "orquestra.quantum.circuits._unitary_tools:_lift_matrix_numpy"],
+                             lambda: range(2, 4 if tier == "quick" else 5), _check_symbolic,
+                             "bounded-exhaustive per width: controlled rotations, two-qubit rotations and a doubly-controlled rotation with a FREE parameter on EVERY ordered qubit tuple: "
+                             "the state obtained through the symbolic embedding and bound afterwards, the state of the numerically bound circuit, exact <Z_q> and samples agree with the "
+                             "element-wise definition (qubit q = tensor axis q)", timeout=1500))
     return obs
